@@ -143,7 +143,7 @@ def set_cases(ctx, fmts, rng, tier, trailing=(0, 5)):
                 vals = values_for(rng, fld['width'], nr)
                 combos = [(b, v) for b in fills for v in (vals if extra == trailing[0] else vals[:4])]
                 if extra == trailing[0]:
-                    for v in [rng.bits(fld['width']), rng.bits(64), (1 << fld['width']) - 1]:
+                    for v in [rng.bits(fld['width']), rng.bits(64), (1 << fld['width']) - 1, rng.bits(max(1, fld['width'] // 2)), 0]:      # incl. values that fit the low half
                         combos += [(b, v) for b in related_priors(rng, n, fld['first'], fld['width'], v)]
                 for b, v in combos:
                     hb = hexbuf(b)
